@@ -645,8 +645,13 @@ pub fn main_for<P: Property>(p: P, opts: &Opts) -> i32 {
     // ---- stage 1: witnesses of known / fixed findings ------------------------------------------
     let mut witness_runs = 0u64;
     let mut fallback_samples: Vec<serde_json::Value> = vec![];
+    let skip_witnesses = std::env::var("VERIF_SKIP_WITNESSES").is_ok();
     for k in &known {
         let Some(w) = &k.witness else { continue };
+        if skip_witnesses {
+            // evaluation aid only (search-only sensitivity runs); registered commands never set this
+            continue;
+        }
         let path = root.join(w);
         let case = match load_case::<P>(&path) {
             Ok(c) => c,
